@@ -435,6 +435,43 @@ func genC10(g *gen) {
 		return best
 	}
 	g.line("Definition gen_disconnect_handler_calls : list string := %s.", coqStrListRouting(calls("HandlePeerDisconnect")))
+	// ... as unconditional top-level statements of handlePeerDisconnect: none of
+	// the four calls sits inside an if/for/switch/closure, and no return
+	// statement precedes the last of them
+	{
+		uncond := false
+		if fd := findFunc(af, "Agent", "handlePeerDisconnect"); fd != nil && fd.Body != nil {
+			top := map[string]bool{}
+			lastIdx := -1
+			for i, st := range fd.Body.List {
+				if es, ok := st.(*ast.ExprStmt); ok {
+					if c, ok := es.X.(*ast.CallExpr); ok {
+						if sel, ok := c.Fun.(*ast.SelectorExpr); ok && strings.HasPrefix(sel.Sel.Name, "HandlePeerDisconnect") && strings.HasSuffix(src(sel.X), "routeMgr") &&
+							len(c.Args) == 1 {
+							top[sel.Sel.Name] = true
+							lastIdx = i
+						}
+					}
+				}
+			}
+			uncond = len(top) == 4
+			for i, st := range fd.Body.List {
+				if i > lastIdx {
+					break
+				}
+				ast.Inspect(st, func(n ast.Node) bool {
+					if _, isRet := n.(*ast.ReturnStmt); isRet {
+						uncond = false
+					}
+					if _, isLit := n.(*ast.FuncLit); isLit {
+						return false
+					}
+					return true
+				})
+			}
+		}
+		g.line("Definition gen_disconnect_calls_unconditional : bool := %s.", coqBool(uncond))
+	}
 	cl := []string{}
 	for _, c := range calls("CleanupStale") {
 		if c != "CleanupStaleNodeInfo" {
